@@ -33,6 +33,17 @@ def cases(tier, rng, schema, feats):
         for cap in (1, 2, 64, 7609):
             out.append(f"C02.{n}\tenc2\t{variant}\t{cap}\t-\t-")
             n += 1
+    # the caller's buffer is not empty on entry (reused between responses): the message must be the same
+    for variant, t in RESPONSES.items():
+        for prior_len in (1, 2, 17, 300):
+            v = gen.show(g.named_val(t, present=None, focus=False))
+            out.append(f"C02.{n}\tenc2\t{variant}\t7609\t{rng.bytes(prior_len).hex()}\t{v}")
+            n += 1
+            out.append(f"C02.{n}\tenc2\t{variant}\t7609\t{rng.bytes(prior_len).hex()}\t{gen.show(g.named_val(t, present='none'))}")
+            n += 1
+    for variant in UNIT_RESPONSES:
+        out.append(f"C02.{n}\tenc2\t{variant}\t64\t{rng.bytes(9).hex()}\t-")
+        n += 1
     return out
 
 
